@@ -16,7 +16,7 @@ META = {
     'props': 'Props/C20.v',
     'claimed': True,
     'level_text': ('Proof about a model of the path handling of geophires_x/__main__.py, GEOPHIRESv3.main (after fix 4b78654), '
-                   'Model.__init__, GeophiresXClient and the pathlib operations they use, with the simulation an arbitrary function: 20 '
+                   'Model.__init__, GeophiresXClient and the pathlib operations they use, with the simulation an arbitrary function: 23 '
                    'axiom-free Coq theorems - for every starting directory, installation directory, input and output argument the command '
                    'line writes the report to Path(out).absolute() of the starting directory and the JSON next to it as stem.json (the '
                    'chdir into the package does not leak), relative and absolute forms name the same files, the default is HDR.out/HDR.json '
@@ -495,6 +495,97 @@ def part_direct_relative(ctx, ok_inputs, direct, ex):
              'observed with the chdir target substituted by a scratch directory')
 
 
+# ------------------------------------------------------------------------------------------ (g) histories, Model(input_file=)
+def _history_job(a):
+    """one process, one working directory: a sequence of GeophiresXClient calls (ok / exception / bare sys.exit); the working
+    directory is recorded after every call; the last call uses a RELATIVE from_file_path plus params and a relative HTML
+    Output File, i.e. everything that is resolved against the working directory"""
+    ok_text, fail_text, abort_text, kinds, scratch = a
+    from geophires_x_client import GeophiresInputParameters, GeophiresXClient
+    home = Path(scratch, f'hist_{uuid.uuid4().hex[:8]}', 'w')
+    home.mkdir(parents=True)
+    os.chdir(home)
+    sys.stdout = open(os.devnull, 'w')
+    (home / 'in.txt').write_text(ok_text)
+    cwds, res = [], {'report': None, 'error': None, 'html': False}
+    for kind in kinds:
+        text = {'ok': ok_text, 'fail': fail_text, 'abort': abort_text}[kind]
+        f = home / f'{kind}.txt'
+        f.write_text(text)
+        try:
+            GeophiresXClient(enable_caching=False).get_geophires_result(GeophiresInputParameters(from_file_path=f))
+        except BaseException:  # noqa
+            pass
+        cwds.append(os.getcwd())
+    try:    # relative paths after that history
+        gp = GeophiresInputParameters({'HTML Output File': 'rel.html'}, from_file_path=Path('in.txt'))
+        r = GeophiresXClient(enable_caching=False).get_geophires_result(gp)
+        res['report'] = Path(r.output_file_path).read_text(encoding='UTF-8', errors='replace')
+        res['html'] = (home / 'rel.html').is_file()
+    except BaseException as e:  # noqa
+        res['error'] = f'{type(e).__name__}: {e}'[:200]
+    cwds.append(os.getcwd())
+    res.update(home=str(home), cwds=cwds)
+    os.chdir(scratch)
+    return res
+
+
+def _model_kw_job(a):
+    """Model(input_file=A) in a process whose sys.argv[1] names another existing input B (and the reverse: no keyword)"""
+    scratch, use_kw = a
+    import geophires_x.Model as M
+    d = Path(scratch, f'kw_{uuid.uuid4().hex[:8]}')
+    d.mkdir()
+    (d / 'A.txt').write_text(BASE + 'End-Use Option, 2\nGradient 1, 61\n')
+    (d / 'B.txt').write_text(BASE + 'End-Use Option, 2\nGradient 1, 37\n')
+    os.chdir(d)
+    argv0, sys.argv = sys.argv, ['', str(d / 'B.txt'), str(d / 'o.out')]
+    try:
+        m = M.Model(enable_geophires_logging_config=False, input_file=str(d / 'A.txt') if use_kw else None)
+        g = m.InputParameters['Gradient 1'].sValue
+    finally:
+        sys.argv = argv0
+        os.chdir(scratch)
+    return {'argv': ['', str(d / 'B.txt'), str(d / 'o.out')], 'kw': str(d / 'A.txt') if use_kw else None,
+            'read': str(d / ('A.txt' if g == '61' else 'B.txt'))}
+
+
+def part_histories(ctx, ok_inputs, direct, ex):
+    k = next(i for i, r in enumerate(direct) if r['ok'] and r['report'])
+    ok_text = ok_inputs[k][1]
+    hists = [['fail'], ['abort'], ['ok', 'fail', 'ok'], ['fail', 'abort', 'fail'], ['ok']][:ctx.n(4, 5)]
+    jobs = [(ok_text, SPECIAL['fails-bad-value'][0], SPECIAL['aborts-sys-exit'][0], h, str(ctx.scratch)) for h in hists]
+    res = list(ex.map(_history_job, jobs))
+    ref = list(ex.map(runner._job, [(0, ok_text.rstrip('\n') + '\nHTML Output File, ' + str(Path(ctx.scratch, 'ref_hist.html')) + '\n', str(ctx.scratch), False)]))[0]
+    terms = []
+    for h, r in zip(hists, res):
+        terms.append(f'history_check {qconv.coq_bytes(pkg())} {qconv.coq_bytes(r["home"])} {slist(h + ["ok"])} {slist(r["cwds"])}')
+        ctx.count('client-histories', evaluations=1, nontrivial_keys=[tuple(h)], history={'+'.join(h): 1})
+        rec = {'part': 'history', 'kinds': h, 'ok_text': ok_text}
+        if any(c != r['home'] for c in r['cwds']):
+            ctx.violate('property', 'client-history:working-directory-not-restored', 'GeophiresXClient leaves the process in another working '
+                        'directory after a call of the history ' + '+'.join(h), inp=rec, expected=r['home'], observed=r['cwds'])
+        elif r['error'] or masked(r['report']) != masked(ref['report']) or not r['html']:
+            ctx.violate('property', 'client-history:relative-paths-after-history', 'after the history ' + '+'.join(h) + ' a client request with a '
+                        'relative from_file_path / relative HTML Output File no longer gives the result of the same request made alone',
+                        inp=rec, observed={'error': r['error'], 'html_in_callers_directory': r['html']})
+    for i in fw.kernel_bools(ctx, 'history', ['Model.CliPaths'], terms, open_scope='string_scope'):
+        ctx.violate('corr', 'client-history:model-disagrees', 'Coq model history/client_step and the observed working directories disagree',
+                    inp={'part': 'history', 'kinds': hists[i], 'ok_text': ok_text}, observed=res[i]['cwds'])
+    kw = list(ex.map(_model_kw_job, [(str(ctx.scratch), True), (str(ctx.scratch), False)]))
+    terms = []
+    for r in kw:
+        terms.append(f'opt_eqb (model_input_source {sopt(r["kw"])} {slist(r["argv"])}) (Some {qconv.coq_bytes(r["read"])})')
+        ctx.count('model-input-keyword', evaluations=1, nontrivial_keys=[r['kw'] is not None])
+        if r['kw'] is not None and r['read'] != r['kw']:
+            ctx.violate('property', 'direct-model:input_file-keyword-ignored', 'Model(input_file=A) reads sys.argv[1] instead of A: the direct '
+                        'pipeline with the keyword no longer agrees with the command line / client on A',
+                        inp={'part': 'model-kw'}, expected=r['kw'], observed=r['read'])
+    for i in fw.kernel_bools(ctx, 'modelkw', ['Model.CliPaths'], terms, open_scope='string_scope'):
+        ctx.violate('corr', 'direct-model:input-source:model-disagrees', 'Coq model model_input_source and Model.__init__ disagree',
+                    inp={'part': 'model-kw'}, observed=kw[i])
+
+
 # ------------------------------------------------------------------------------------------ (f) HIP-RA-X
 HIP_BASE = {'Reservoir Temperature': 250.0, 'Rejection Temperature': 60.0, 'Reservoir Porosity': 10.0, 'Reservoir Area': 55.0,
             'Reservoir Thickness': 0.25, 'Reservoir Life Cycle': 25}
@@ -679,6 +770,7 @@ def correspondence(ctx, proofs_ok=True):
         part_client(ctx, ok_inputs, direct, ex)
         part_direct_relative(ctx, ok_inputs, direct, ex)
         part_hip(ctx, ex)
+        part_histories(ctx, ok_inputs, direct, ex)
 
 
 def replay(ctx, data):
@@ -756,6 +848,13 @@ def replay(ctx, data):
         bad = any(v.kind != 'property' or not v.key.startswith('hip-ra-x-cli:') for v in ctx.violations[before:])
         print('HIP-RA-X part re-run:', [v.key for v in ctx.violations[before:]])
         before = len(ctx.violations)
+    elif part in ('history', 'model-kw'):
+        ok_text = inp.get('ok_text', BASE + 'End-Use Option, 2\n')
+        ref = runner.run_many(ctx, [ok_text])[0]
+        with ProcessPoolExecutor(max_workers=2, initializer=runner._init_worker, initargs=(str(ctx.scratch),)) as ex:
+            part_histories(ctx, [('replay', ok_text)], [ref], ex)
+        print('violations on re-run:', [v.key for v in ctx.violations[before:]])
+        bad = False
     elif part == 'mc':
         ref = runner.run_many(ctx, [sampled_text(inp['text'], degenerate_input(inp['text']))])[0]
         with ProcessPoolExecutor(max_workers=1, initializer=runner._init_worker, initargs=(str(ctx.scratch),)) as ex:
